@@ -448,7 +448,12 @@ func parseRealms(lines []string) (realms []Realm, err error) {
 			c--
 			if c == 0 {
 				var r Realm
-				e := r.parseLines(name, lines[start+1:i])
+				var body []string
+				if start+1 <= i {
+					// a block opened and closed on one line has no body lines
+					body = lines[start+1 : i]
+				}
+				e := r.parseLines(name, body)
 				if e != nil {
 					if _, ok := e.(UnsupportedDirective); !ok {
 						err = e
